@@ -40,7 +40,7 @@ fn dec_config(src: &mut Source, allow_sampling: bool) -> Config {
         globals: src.vec(2, |s| (s.pick(&["env", "dc", "host"]).to_string(), s.pick(&["", "prod", "a1"]).to_string())),
         distributions: src.bool(),
         sampling: allow_sampling && src.chance(64),
-        reservoir: *src.pick(&[1usize, 2, 4, 16]),
+        reservoir: *src.pick(&[1usize, 2, 3, 5, 16, 100]),
         max_len: *src.pick(&[8192usize, 1432, 120, 64, 100]),
         length_prefix: src.bool(),
     };
